@@ -1,6 +1,6 @@
 (** C01 — property theorems (proofs in C01/Proofs.v). *)
 From Coq Require Import String.
-From Coq Require Import List Arith NArith Bool.
+From Coq Require Import List Arith NArith ZArith Bool.
 From SV Require Import C01.Model C01.Census C01.Gen C01.Proofs.
 Import ListNotations.
 Open Scope list_scope.
@@ -21,6 +21,27 @@ Proof. exact framing_roundtrip_proof. Qed.
 Theorem framing_injective :
   forall c1 c2 b1 b2, chunked_encode c1 b1 = chunked_encode c2 b2 -> b1 = b2.
 Proof. exact framing_injective_proof. Qed.
+
+(** 1b. h2_converter_exact: the DATA path of the H2 block converter (mirror of
+    converter.rs, tied in-process to the real converter on every run), for every
+    fuel, frame size, window schedule (any sign), chunking of the body and end
+    marker: what went out over the rounds followed by what is still queued is
+    the body; every frame fits the frame size; a round's window decreases by
+    exactly its payload and never crosses zero downwards; END_STREAM only appears
+    when the whole body is out and nothing is queued. *)
+Theorem h2_converter_exact :
+  forall fuel max windows chunks (ended : bool),
+    let blocks := map BChunk chunks ++ (if ended then [BEnd] else []) in
+    let '(rs, final) := h2_rounds fuel max windows blocks in
+    flat_map (fun r => payload_of (fst r)) rs ++ body_of final = List.concat chunks /\
+    (forall w blocks',
+        let '(fs, _, w') := h2_prepare fuel w max blocks' in
+        Forall (fun fr => length (f_payload fr) <= max) fs /\
+        (w' = w - Z.of_nat (length (payload_of fs)))%Z /\ ((0 <= w)%Z -> (0 <= w')%Z)) /\
+    (forall w cs,
+        let '(fs, bl, _) := h2_prepare fuel w max (map BChunk cs ++ [BEnd]) in
+        existsb f_end fs = true -> bl = [] /\ payload_of fs = List.concat cs).
+Proof. exact h2_converter_exact_proof. Qed.
 
 (** 2. relay_prefix: for every buffer capacity and every schedule of ingest /
     convert / flush steps, what has been written so far, followed by what is
@@ -83,6 +104,9 @@ Example framing_nonvacuous :
      = [mkF [7; 8]%N 1 false; mkF [9; 10]%N 0 false; mkF [11]%N 0 true]
   /\ chunked_decode [CSize 3; CData [1; 2]%N; CSize 0; CEnd] = None
   /\ r_sent (relay_run 2 (relay_init [1; 2; 3]%N) [Ingest 5; Convert 1; Flush 9; Flush 1]) = [1]%N
+  /\ h2_prepare 10 5%Z 3 [BChunk [1; 2; 3; 4; 5; 6; 7]%N; BEnd]
+     = ([mkF [1; 2; 3]%N 0 false; mkF [4; 5]%N 0 false], [BChunk [6; 7]%N; BEnd], 0%Z)
+  /\ h2_prepare 10 50%Z 4 [BChunk [1; 2; 3]%N; BEnd] = ([mkF [1; 2; 3]%N 0 false; mkF [] 0 true], [], 47%Z)
   /\ tcp_write 100 10 0 [KWrote 3; KWrote 20] = (10, Continue, [])
   /\ tcp_write 100 10 0 [KWrote 3; KWouldBlock] = (3, WouldBlock, []).
 Proof. vm_compute. repeat split; reflexivity. Qed.
